@@ -971,7 +971,11 @@ void BW_MidiSequencer::buildTimeLine(const std::vector<MidiEvent> &tempos,
             }
 
             // Capture loop points time positions
-            if(!m_loop.invalidLoop)
+            // (a row holding nothing but End-of-Track carries the time of the row before it, not the time of its tick)
+            const bool loneEndOfTrack = (pos.events.size() == 1) &&
+                                        (pos.events[0].type == MidiEvent::T_SPECIAL) &&
+                                        (pos.events[0].subtype == MidiEvent::ST_ENDTRACK);
+            if(!m_loop.invalidLoop && !loneEndOfTrack)
             {
                 // Set loop points times
                 if(loopStartTicks == pos.absPos)
